@@ -703,7 +703,12 @@ PROPS["C18"] = dict(
          "file, bad redis url) at every kind, first in the list and behind components that already hold sockets or "
          "goroutines; one child process per case, run() three times: error reported, sockets / other fds / goroutines "
          "left over per run (garbage collection off so that unreachable sockets stay visible); a few through the real "
-         "binary (exit status); compared with the init programs of Router/StartupInit.v; "
+         "binary (exit status); 'address in use' with the address held by ANOTHER INSTANCE of the router (a second "
+         "run() in the process, the real binary twice) for the metrics endpoint and every listener kind incl. udp "
+         "with threads unset / 1 / 2, with and without socket.so_reuseport; valid configurations closed while a "
+         "client is connected / in the middle of a TLS handshake / of a request on each closable endpoint (metrics, "
+         "tcp, gnet, http, fasthttp, tls, https, quic), first and behind other closers: close within 3 s (a hang is a "
+         "VIOLATION) and nothing left; compared with the init programs of Router/StartupInit.v; "
          "startup: failing listener at every position of a list holding all 8 listener kinds (port in use, "
          "unknown protocol, bad certificate path, bad address), failing upstream / domain set / rule / cache / "
          "metrics listener, in-process and through the real binary; distinct = distinct case line",
@@ -712,7 +717,8 @@ PROPS["C18"] = dict(
                  "injected dialers honour context cancellation (dm=honour) or complete late (dm=ignore)"],
     trusted=["C18: the init programs (si_prog_of: order of checks, acquisitions and the release on each error path) "
              "and the fault -> failing statement table (si_fault_stmt) are read off app/router by hand and tied to the "
-             "code by kind startcfg; goroutines of fasthttp's worker-pool cleaner (10 s sleep) are not counted",
+             "code by kind startcfg; goroutines of fasthttp's worker-pool cleaner (10 s sleep) are not counted; which closer "
+             "waits for its peers (si_closer_wait) is read off the code and timed by the harness (router close <= 3 s)",
              "C18: which parts an upstream owns and which its Close names (uo_owned, uo_close_prog) is read off "
              "upstream.go by hand and tied to the code by kind upown; the library parts (connTracker, quic.Transport, "
              "UDP socket) are counters, not models of net/http / quic-go",
